@@ -60,6 +60,8 @@ func presetFor(c *Ctx, id string, i int) *HistOpts {
 		o.Blocks = 50
 	case "C13":
 		o.RestartPermille = 60
+		// tiny, ordinary and very large rates (power x rate beyond 2^64)
+		o.Params.RewardPerPower = []string{"2000000000", "1", "700000000000000000", "3"}[i%4]
 		w["withdraw"] = 30
 		w["stake"], w["delegate"], w["unstake"] = 15, 15, 10
 		o.Gen.Absent = 250
@@ -103,6 +105,9 @@ func presetFor(c *Ctx, id string, i int) *HistOpts {
 		var sc []*scenario
 		switch id {
 		case "C02", "C11", "C12":
+			if id == "C12" && i%4 == 2 {
+				sc = append(sc, scenParamChange(int64(3+rng.Intn(4)), "lazyRewardBlocks")) // the unbonding period changes while stakes are unbonding
+			}
 			if i%4 == 0 {
 				o.Gen.NVal = 3
 				o.Params.MaxValidatorCnt = 6
@@ -114,13 +119,14 @@ func presetFor(c *Ctx, id string, i int) *HistOpts {
 		case "C10":
 			sc = append(sc, scenExitRestake(int64(3+rng.Intn(6))), scenJailAndEvidence(int64(6+rng.Intn(6))))
 		case "C13":
-			sc = append(sc, scenForcedRelease(int64(4+rng.Intn(8))), scenJailAndEvidence(int64(8+rng.Intn(6))))
+			sc = append(sc, scenForcedRelease(int64(4+rng.Intn(8))), scenJailAndEvidence(int64(8+rng.Intn(6))), scenParamChange(int64(3+rng.Intn(4)), "rewardPerPower"))
 		case "C14":
 			sc = append(sc, scenJailAndEvidence(int64(4+rng.Intn(6))), scenTwinProposals(int64(3+rng.Intn(3)), false))
 		case "C15":
 			sc = append(sc, scenTwinProposals(int64(3+rng.Intn(5)), i%4 == 0), scenGasPriceChange(int64(12+rng.Intn(6))))
 		case "C16":
 			sc = append(sc, scenGasPriceChange(int64(3+rng.Intn(5))))
+		case "C12x":
 		case "C04":
 			sc = append(sc, scenExitRestake(int64(3+rng.Intn(6))))
 		case "C17":
